@@ -3924,6 +3924,18 @@ T('C09', 'twin-mpi-bytelen-cached', PT, "    def byte_length(self):\n        ret
   "    def byte_length(self):\n        cached = getattr(self, '_nbytes', None)\n        if cached is None:\n            cached = (self.bit_length() + 7) // 8\n            setattr(self, '_nbytes', cached)\n        return cached\n")
 M('C09', 'malformed-length-fstring-special', TY, "                if 192 > fo:\n                    return (self.bytes_to_int(a[offset:offset + 1]), 1, False)", "                if 192 > fo:\n                    return (int(f'{fo:03d}'[-2:]) if fo > 99 else fo, 1, False)", 'C09.1')
 
+# --- C09 fourth round: width of the length field as it arrived must not survive into what is written back
+_NEWLEN_TAIL = "                self._len = total\n            else:\n                self._len = part_len\n"
+M('C09', 'llen-remembers-parsed-width', TY, _NEWLEN_TAIL, _NEWLEN_TAIL + "            self._nllen = size\n", 'C09.1',
+  more=[(TY, "        lf = self._lenfmt\n\n        if lf == 1:\n            # new-format length\n", "        lf = self._lenfmt\n\n        if lf == 1:\n            # new-format length\n            if getattr(self, '_nllen', None) is not None:\n                return self._nllen\n"),
+        (TY, "    def length_int(self, val):\n        self._len = val\n", "    def length_int(self, val):\n        self._len = val\n        self._nllen = None\n")])
+M('C09', 'five-octet-kept-when-parsed', TY, "                    return (self.bytes_to_int(b[offset + 1:offset + 5]), 5, False)", "                    self._five = True\n                    return (self.bytes_to_int(b[offset + 1:offset + 5]), 5, False)", 'C09.1',
+  more=[(TY, "            if 192 > nl:\n                return Header.int_to_bytes(nl)", "            if 192 > nl and not wide:\n                return Header.int_to_bytes(nl)"),
+        (TY, "            elif 8384 > nl:\n                elen", "            elif 8384 > nl and not wide:\n                elen"),
+        (TY, "    def encode_length(length, nhf=True, llen=1):\n        def _new_length(nl):", "    def encode_length(length, nhf=True, llen=1, wide=False):\n        def _new_length(nl):"),
+        (PT, "        _bytes += self.encode_length(self.length, self._lenfmt, self.llen)", "        _bytes += self.encode_length(self.length, self._lenfmt, self.llen, getattr(self, '_five', False))")])
+T('C09', 'twin-parsed-width-recorded-unused', TY, _NEWLEN_TAIL, _NEWLEN_TAIL + "            self._wire_llen = size\n")
+
 # =============================================================================================== C20
 M('C20', 'ops-loop-forward', PGP, "            for sig in reversed(self._signatures):\n                ops = sig.make_onepass()", "            for sig in self._signatures:\n                ops = sig.make_onepass()", 'C20.2')
 M('C20', 'trailing-sigs-reversed', PGP, "                yield self._mdc\n\n            for sig in self._signatures:\n                yield sig", "                yield self._mdc\n\n            for sig in reversed(self._signatures):\n                yield sig", 'C20.2')
